@@ -113,6 +113,10 @@ OutInfo ==
                 <<Mono(lastTime, m.num["time"]), "C16", "time decreased within a search", lastTime>>,
                 <<m.haspv => line.ok, "C16", "principal variation is not a legal line from the searched position: " \o ToString(m.pv),
                   "move " \o ToString(line.at) \o " illegal">>,
+                \* an interrupted iteration reports the depth of the last completed one again: what it reports must still be that iteration's result
+                <<(m.haspv /\ lastPV # <<>> /\ m.num["depth"] # "none" /\ m.num["depth"] = lastDepth) => (m.pv = lastPV /\ (m.score.kind = "none" \/ m.score = lastScore)), "C09",
+                  "a second report for depth " \o ToString(lastDepth) \o " differs from the first (" \o ToString(m.pv) \o "): the result of an interrupted search must be that of the last completed iteration",
+                  ToString(lastPV)>>,
                 <<m.num["hashfull"] = "none" \/ NumLE(m.num["hashfull"], "1000"), "C18", "hashfull above 1000 permille", "<= 1000">> >>)
         /\ lastDepth' = Keep(lastDepth, m.num["depth"])
         /\ lastNodes' = Keep(lastNodes, m.num["nodes"])
